@@ -31,29 +31,29 @@ Proof.
   destruct (IH _ eq_refl) as [E2|E2]; rewrite E2; cbn [bind]; [left | right]; reflexivity.
 Qed.
 
-Lemma look_cyc rec : rec_cyc rec -> forall n s' s target args L r, sub_stack s' s ->
-  look rec n s' target args L = Ok r -> same_or_cycle (look rec n s target args L) r.
+Lemma look_cyc rec : rec_cyc rec -> forall n s' s target args A L r, sub_stack s' s ->
+  look rec n s' target args A L = Ok r -> same_or_cycle (look rec n s target args A L) r.
 Proof.
-  intros Hc. induction n as [|n IHn]; intros s' s target args L r Hs H; cbn [Foreign.look] in H |- *;
+  intros Hc. induction n as [|n IHn]; intros s' s target args A L r Hs H; cbn [Foreign.look] in H |- *;
     destruct (get_value_at vals L target) as [[T| |sub]|]; try discriminate.
   - destruct (on_stack L target s') eqn:Eo'; [discriminate|].
     destruct (rec ((L, target) :: s') L T) as [T'| | | |] eqn:ET; cbn [bind] in H; try discriminate.
-    destruct (resolve_args rec s' L args) as [args'| | | |] eqn:EA; cbn [bind] in H; try discriminate.
+    destruct (resolve_args rec s' A args) as [args'| | | |] eqn:EA; cbn [bind] in H; try discriminate.
     inversion H; subst.
     destruct (on_stack L target s); [right; reflexivity|].
     destruct (Hc _ _ _ _ _ (sub_stack_cons (L, target) _ _ Hs) ET) as [E|E]; rewrite E; cbn [bind]; [|right; reflexivity].
     destruct (resolve_args_cyc _ _ _ _ _ _ Hc Hs EA) as [E2|E2]; rewrite E2; cbn [bind]; [left | right]; reflexivity.
   - destruct (str_eqb L dflt); discriminate.
-  - destruct (resolve_args rec s' L args); cbn [bind] in H; discriminate.
+  - destruct (resolve_args rec s' A args); cbn [bind] in H; discriminate.
   - destruct (on_stack L target s') eqn:Eo'; [discriminate|].
     destruct (rec ((L, target) :: s') L T) as [T'| | | |] eqn:ET; cbn [bind] in H; try discriminate.
-    destruct (resolve_args rec s' L args) as [args'| | | |] eqn:EA; cbn [bind] in H; try discriminate.
+    destruct (resolve_args rec s' A args) as [args'| | | |] eqn:EA; cbn [bind] in H; try discriminate.
     inversion H; subst.
     destruct (on_stack L target s); [right; reflexivity|].
     destruct (Hc _ _ _ _ _ (sub_stack_cons (L, target) _ _ Hs) ET) as [E|E]; rewrite E; cbn [bind]; [|right; reflexivity].
     destruct (resolve_args_cyc _ _ _ _ _ _ Hc Hs EA) as [E2|E2]; rewrite E2; cbn [bind]; [left | right]; reflexivity.
   - destruct (str_eqb L dflt); [discriminate|]. eapply IHn; [exact Hs | exact H].
-  - destruct (resolve_args rec s' L args); cbn [bind] in H; discriminate.
+  - destruct (resolve_args rec s' A args); cbn [bind] in H; discriminate.
 Qed.
 
 Theorem resolve_stack_only_cycles : forall fuel, rec_cyc (resolve fuel).
